@@ -1,7 +1,8 @@
 // harness commands owned by the check of property C15 (see tools/props/C15.py)
 //
-// replmods <opts> <item>...      item = <hex snippet> | RESET | FRESH | <hex name>=<hex src>
+// replmods <opts> <item>...      item = <hex snippet> | RESET | FRESH | NAMES:<hex>,<hex>,… | <hex name>=<hex src>
 //   One Vm, the snippets in order (as the REPL of yarel-cli does), with the host module loader serving the
+//   NAMES: answers `G <hex name> <0|1>` per name: is it a global of module main now.
 //   `name=src` items (which may appear anywhere on the line; the whole map is installed before the first
 //   snippet).  FRESH drops the Vm and creates a new one (the reference for "after a reset the interpreter is
 //   indistinguishable from a newly created one").  After every item: `SNIP i`, the O/R/M records, the modules
@@ -37,6 +38,15 @@ fn cmd_replmods(args: &[&str], out: &mut Vec<String>) {
             vm.reset();
             out.push("R reset".to_owned());
             emit_carried(out, &vm);
+            continue;
+        }
+        if let Some(list) = a.strip_prefix("NAMES:") {
+            // which of these names are globals of module main right now
+            out.push("R names".to_owned());
+            for n in list.split(',').filter(|n| !n.is_empty()) {
+                let name = unhex_str(n);
+                out.push(format!("G {} {}", n, if vm.global("main", &name).is_some() { 1 } else { 0 }));
+            }
             continue;
         }
         if *a == "FRESH" {
